@@ -139,7 +139,7 @@ func (q *Query) groupBy(result *roaring.Bitmap, idx *Index) (finalResult []Resul
 				}
 
 				newResultGroups = append(newResultGroups, resultGroup{
-					fields: append(rg.fields, ResultField{Column: gbf.Column, Value: v.Value}),
+					fields: append(rg.fields[:len(rg.fields):len(rg.fields)], ResultField{Column: gbf.Column, Value: v.Value}),
 					result: result,
 				})
 			}
